@@ -20,7 +20,7 @@ func init() { register("C06", "other", checkC06) }
 func checkC06(c *Ctx) {
 	r := c.Rep
 	p := c.Prog
-	r.Explain = "Structural clauses of datagram decoding, decided on Unmarshal, unmarshal and (*CompoundPacket).Unmarshal for every input at once. FRM: in `unmarshal` every decoder invocation receives the SSA value rawData[:n]; with an unconstrained input the numeric engine must entail n = 4*(h.Length+1) as an integer identity (no fixed-width wrap), n <= len(rawData), and at every nil-error return the `processed` result equals n; h.Length is the big-endian uint16 of input bytes 2..3 (SSA pattern on (*Header).Unmarshal); both datagram loops thread the remainder rawData[processed:] of the same call, append exactly that call's packet, and run until the remainder is empty. VER: (*Header).Unmarshal evaluated (constant propagation) for all 256 first octets returns a non-nil error unless the version bits are 2. LOC: every index, slice (against the LENGTH, not the capacity) and binary.BigEndian read of every decoder is entailed within the slice it was handed, and no decoder uses 3-index slices or cap(): a decoder cannot observe bytes outside its frame, so frames of a||b are decoded from disjoint sub-slices exactly as in a and in b. AON: every return of Unmarshal whose error may be non-nil returns the constant nil slice; a nil-error return has len(packets) >= 1; CompoundPacket.Unmarshal stores the receiver only after the last decode call. ERR: no callee error is dropped in the three functions (E-ERR)."
+	r.Explain = "Structural clauses of datagram decoding, decided on Unmarshal, unmarshal and (*CompoundPacket).Unmarshal for every input at once. FRM: in `unmarshal` every decoder invocation receives the SSA value rawData[:n]; with an unconstrained input the numeric engine must entail n = 4*(h.Length+1) as an integer identity (no fixed-width wrap), n <= len(rawData), and at every nil-error return the `processed` result equals n; the datagram parameter of `unmarshal` has no other use than the header read, the cut rawData[:n] and len(), and that length is only compared (ordered) with the same n, so what a frame decodes to cannot depend on whether octets follow it (frame-local); h.Length is the big-endian uint16 of input bytes 2..3 (SSA pattern on (*Header).Unmarshal); both datagram loops thread the remainder rawData[processed:] of the same call, append exactly that call's packet, and run until the remainder is empty. VER: (*Header).Unmarshal evaluated (constant propagation) for all 256 first octets returns a non-nil error unless the version bits are 2. LOC: every index, slice (against the LENGTH, not the capacity) and binary.BigEndian read of every decoder is entailed within the slice it was handed, and no decoder uses 3-index slices or cap(): a decoder cannot observe bytes outside its frame, so frames of a||b are decoded from disjoint sub-slices exactly as in a and in b. AON: every return of Unmarshal whose error may be non-nil returns the constant nil slice; a nil-error return has len(packets) >= 1; CompoundPacket.Unmarshal stores the receiver only after the last decode call. ERR: no callee error is dropped in the three functions (E-ERR)."
 	r.RuleText = "C06-FRM, C06-VER, C06-LOC, C06-AON, C06-ERR; undecided = failure."
 	r.Trusted = []string{"go/ssa", "numeric engine checker/num, decoder summaries as in C01", "constant-propagation evaluator checker/pe", "encoding/binary model"}
 	r.Assume = []string{"decoder receivers are fresh zero values (what unmarshal allocates)", "no slice longer than 2^50"}
@@ -177,6 +177,7 @@ func c06Frame(c *Ctx, res *numResult, un, hun *ssa.Function, hidx map[string]int
 	if frame == nil || halloc == nil {
 		return
 	}
+	c06Locality(c, un, hun, raw, frame)
 	// engine
 	e := newNumEngine(c, res.sums)
 	e.ErrDiscipline = true
@@ -453,6 +454,68 @@ func offsetFrameLoop(call *ssa.Call, param *ssa.Parameter, processed *ssa.Extrac
 		return nil, "the loop body is not entered on offset < len(data)"
 	}
 	return h, ""
+}
+
+// c06Locality (C06-FRM/unmarshal/frame-local): what `unmarshal` returns for a frame may depend on the rest of
+// the datagram only through the test that the frame fits. Def-use rule over the datagram parameter: it is
+// passed to Header.Unmarshal (which reads four octets, C06-LOC), cut to the frame rawData[:n], and measured
+// with len(); every use of that length must be an ordered comparison with the same n that bounds the frame
+// (n > len, len < n, n <= len, len >= n). Any other use — an equality test with the frame size, arithmetic,
+// an index, another call — makes the result of one frame depend on what follows it.
+func c06Locality(c *Ctx, un, hun *ssa.Function, raw *ssa.Parameter, frame *ssa.Slice) {
+	r := c.Rep
+	p := c.Prog
+	var bad []string
+	nlen, ncmp := 0, 0
+	for _, ref := range *raw.Referrers() {
+		switch x := ref.(type) {
+		case *ssa.DebugRef:
+		case *ssa.Slice:
+			if x != frame {
+				bad = append(bad, p.Pos(x.Pos())+": the datagram is sliced a second time")
+			}
+		case *ssa.Call:
+			cc := x.Common()
+			if b, ok := cc.Value.(*ssa.Builtin); ok && b.Name() == "len" {
+				nlen++
+				for _, r2 := range *x.Referrers() {
+					if _, isDbg := r2.(*ssa.DebugRef); isDbg {
+						continue
+					}
+					cmp, ok := r2.(*ssa.BinOp)
+					if !ok {
+						bad = append(bad, p.Pos(r2.Pos())+": len(rawData) is used outside a comparison: "+r2.String())
+						continue
+					}
+					other := cmp.Y
+					if other == ssa.Value(x) {
+						other = cmp.X
+					}
+					switch cmp.Op {
+					case token.LSS, token.GTR, token.LEQ, token.GEQ:
+						if other != frame.High {
+							bad = append(bad, p.Pos(cmp.Pos())+": len(rawData) is compared with something other than the frame size")
+						} else {
+							ncmp++
+						}
+					default:
+						bad = append(bad, fmt.Sprintf("%s: len(rawData) %s ...: the result depends on whether more octets follow the frame", p.Pos(cmp.Pos()), cmp.Op))
+					}
+				}
+				continue
+			}
+			if cc.StaticCallee() == hun {
+				continue
+			}
+			bad = append(bad, p.Pos(x.Pos())+": the whole datagram is passed to "+x.String())
+		default:
+			bad = append(bad, p.Pos(ref.Pos())+": other use of the datagram: "+ref.String())
+		}
+	}
+	sort.Strings(bad)
+	r.Check(len(bad) == 0 && ncmp >= 1, "C06-FRM", "unmarshal/frame-local", p.Pos(un.Pos()),
+		fmt.Sprintf("the datagram is only handed to Header.Unmarshal, cut to rawData[:n] and measured %d time(s); its length is only compared (ordered) with n", nlen),
+		"the result for one frame can depend on the octets that follow it: "+trunc(bad, 3))
 }
 
 // c06AON: all-or-nothing.
